@@ -153,6 +153,55 @@ func (d *dataRun) poolCase(c DataCase, out map[string]interface{}) {
 		if got != want {
 			out["got"], out["want"] = got, want
 		}
+	case "getmessage":
+		prev := runtime.GOMAXPROCS(1)
+		defer runtime.GOMAXPROCS(prev)
+		var got, want string
+		panicked := false
+		for try := 0; try < 3; try++ {
+			var settings []socket.MessageSetting
+			for _, mu := range muts {
+				switch mu {
+				case "setmeta":
+					settings = append(settings, socket.WithSetMeta("token", "stale-"+d.rstr(4, alnum)))
+				case "method":
+					settings = append(settings, socket.WithServiceMethod("/stale/"+d.rstr(4, alnum)))
+				case "body":
+					settings = append(settings, socket.WithBody(&Arg{Tag: "stale"}))
+				case "status":
+					settings = append(settings, socket.WithStatus(erpc.NewStatus(777, "stale", "stale cause")))
+				case "pipeg":
+					settings = append(settings, socket.WithXferPipe('g'))
+				case "badpipe":
+					settings = append(settings, socket.WithXferPipe(250)) // no such filter: the setting panics
+				}
+			}
+			func() {
+				// (as Session.Push / Call do: the panic of a setting is caught and reported as a bad message)
+				defer func() {
+					if recover() != nil {
+						panicked = true
+					}
+				}()
+				m := socket.GetMessage(settings...)
+				socket.PutMessage(m)
+			}()
+			m2 := socket.GetMessage()
+			fresh := socket.NewMessage()
+			if next == "pack" {
+				got, want = msgPack(m2), msgPack(fresh)
+			} else {
+				got, want = msgObserve(m2), msgObserve(fresh)
+			}
+			if got != want {
+				break
+			}
+		}
+		out["panicked"] = panicked
+		out["equal"] = got == want
+		if got != want {
+			out["got"], out["want"] = got, want
+		}
 	case "args":
 		prev := runtime.GOMAXPROCS(1)
 		defer runtime.GOMAXPROCS(prev)
